@@ -92,3 +92,28 @@ pub fn bump() {
     TL.with(|c| *c.borrow_mut() += 1);
     *LOCKED.lock().unwrap() += 1;
 }
+
+/// A closure with an effect (it rewrites an element through `set_content`) driven by a short-circuiting adapter: the elements after
+/// the first `true` are never visited.  `visit_all` is the clean twin (the adapter visits every element).
+pub struct Tok(pub String);
+impl Tok {
+    pub fn set_content(&mut self, s: String) {
+        self.0 = s;
+    }
+}
+fn rewrite(t: &mut Tok) -> bool {
+    if t.0.is_empty() {
+        return false;
+    }
+    t.set_content(String::new());
+    true
+}
+pub fn visit_until_first(v: &mut [Tok]) -> bool {
+    v.iter_mut().any(|t| rewrite(t))
+}
+pub fn visit_all(v: &mut [Tok]) -> bool {
+    v.iter_mut().fold(false, |c, t| rewrite(t) | c)
+}
+pub fn pure_any(v: &[Tok]) -> bool {
+    v.iter().any(|t| t.0.is_empty())
+}
